@@ -28,7 +28,7 @@ def run_one(d):
         shutil.rmtree(tmp, ignore_errors=True)
 
 def main():
-    dirs = sys.argv[1:] or sorted(glob.glob(os.path.join(VERIF, "benign", "*"))) + sorted(glob.glob("/tmp/benign/out/*/[0-9]*"))
+    dirs = sys.argv[1:] or sorted(glob.glob(os.path.join(VERIF, "benign", "*")))
     with ThreadPoolExecutor(12) as ex:
         out = list(ex.map(run_one, dirs))
     bad = 0
